@@ -265,7 +265,10 @@ pub fn finish(meta: &Meta, ctx: &Ctx, report: &Report) -> i32 {
     // violation instead of a machinery error.
     let mut owned = report.clone_for_finish();
     {
-        const NODE_FAILURES: [(&str, &str); 6] = [
+        const NODE_FAILURES: [(&str, &str); 7] = [
+            // (a node whose start-up scan for unverified blocks does not end within 30 s on a database of
+            // a dozen blocks: the scanning thread has died or hangs)
+            ("InitLoadUnverified did not finish", "startup-scan-never-finished"),
             ("next_epoch_ext", "next-epoch-unknown"),
             ("forge replay of block", "verified-block-refused-on-replay"),
             ("forge could not attach block", "verified-block-not-attached"),
